@@ -45,7 +45,7 @@ ONAMES = ('a', 'b', 'c')
 LNAMES = ('x', 'y', 'z', 'a')
 CTXS = ('return', 'assign', 'if', 'try', 'with', 'listcomp', 'dictcomp', 'genexp', 'nested', 'lambda',
         'decoyarg', 'ternary', 'nested2', 'lambda_default', 'walrus', 'fstring', 'starred_display',
-        'nested_decoyarg', 'lambda_decoykw', 'lambda_subscript', 'comp_rebinds_args', 'comp_rebinds_kwargs',
+        'nested_decoyarg', 'lambda_decoykw', 'lambda_subscript', 'comp_rebinds_args', 'comp_rebinds_kwargs', 'genexp_rebinds_args', 'genexp_rebinds_kwargs',
         'loop_rebinds_args', 'loop_rebinds_kwargs', 'text_col0', 'continuation_col0',
         'nested_lambda', 'lambda_lambda',
         'nested_early', 'lambda_early', 'nested_listcomp', 'lambda_dictcomp', 'nested_listcomp_early', 'lambda_dictcomp_early',
@@ -59,7 +59,9 @@ HOIST = '\x00'
 ROUTES = ('global', 'closure', 'attr', 'self_method', 'self_attr', 'param', 'partial_inner',
           'shadow_posonly', 'shadow_lambda', 'shadow_nested', 'shadow_comp', 'local_rebind', 'missing', 'noncallable',
           'classmethod_cls', 'closure_like_global', 'param_shadow_lambda', 'param_shadow_kwonly', 'self_shadow_nested', 'param_default',
-          'self_attr_store')
+          'self_attr_store', 'via_helper', 'via_helper_kw')
+# via_helper*: every call goes through one generic helper that receives the callee as an argument (positionally: APPLY(L0, ...);
+# by keyword: APPLYK(..., fn=L0)); several calls of one function then reach the same helper with different callees
 UNRESOLVABLE = ('shadow_posonly', 'shadow_lambda', 'shadow_nested', 'shadow_comp', 'local_rebind', 'missing', 'noncallable',
                 'param_shadow_lambda', 'param_shadow_kwonly', 'self_shadow_nested', 'param_default', 'self_attr_store')
 STAR_MODES = ('own', 'none', 'foreign', 'own+f')
@@ -129,7 +131,7 @@ def st_program(max_calls=3, routes=ROUTES, ctxs=CTXS, allow_taints=True, decos=N
             outer.append(Par(kname, VK))
         nleaves = draw(st.integers(1, 2))
         leaves = [draw(universe.st_spec(LNAMES, max_named=4, p_star=0.25)) for _ in range(nleaves)]
-        lkinds = [draw(st.sampled_from(['func', 'func', 'func', 'func', 'class', 'instance', 'wrapper', 'partial', 'kwoargs', 'declared', 'midwrap'])) for _ in range(nleaves)]
+        lkinds = [draw(st.sampled_from(['func', 'func', 'func', 'func', 'class', 'instance', 'wrapper', 'partial', 'kwoargs', 'declared', 'midwrap', 'helperwrap', 'helperwrap_kw'])) for _ in range(nleaves)]
         route = draw(st.sampled_from(routes))
         ncalls = draw(st.integers(1, max_calls)) if draw(st.booleans()) else 1
         calls = []
@@ -218,9 +220,9 @@ def normalise(prog):
             c['npos'] = sum(1 for p in spec if p.kind in (PO, POK) and p.default is None)
             c['names'] = [p.name for p in spec if p.kind == KWO and p.default is None]
     for c in prog['calls']:
-        if c['ctx'] == 'comp_rebinds_args' and not (has_star['args'] and c['sa'] == 'own'):
+        if c['ctx'] in ('comp_rebinds_args', 'genexp_rebinds_args') and not (has_star['args'] and c['sa'] == 'own'):
             c['ctx'] = 'listcomp'
-        if c['ctx'] == 'comp_rebinds_kwargs' and not (has_star['kwargs'] and c['sk'] == 'own'):
+        if c['ctx'] in ('comp_rebinds_kwargs', 'genexp_rebinds_kwargs') and not (has_star['kwargs'] and c['sk'] == 'own'):
             c['ctx'] = 'listcomp'
         if c['ctx'] == 'loop_rebinds_args' and not (has_star['args'] and c['sa'] == 'own'):
             c['ctx'] = 'if'
@@ -302,6 +304,12 @@ def _leaf_src(i, spec, kind, as_method=False, deco=''):
     if kind == 'wrapper':
         return ('def _H%s(%s):\n    LOG.append(%s)\n    return %r\ndef %s(*args, **kwargs):\n    return _H%s(*args, **kwargs)\n'
                 % (name, params, rec, name, name, name))
+    if kind in ('helperwrap', 'helperwrap_kw'):
+        # a function that forwards everything through the generic helper (with the via_helper routes the helper is then entered
+        # a second time, with another callee, while it is being examined)
+        call = 'APPLY(_H%s, *args, **kwargs)' % name if kind == 'helperwrap' else 'APPLYK(*args, fn=_H%s, **kwargs)' % name
+        return ('def _H%s(%s):\n    LOG.append(%s)\n    return %r\ndef %s(*args, **kwargs):\n    return %s\n'
+                % (name, params, rec, name, name, call))
     if kind == 'partial':
         # a functools.partial object whose first parameter is bound
         pre = Par('pre', PO if any(p.kind == PO for p in spec) else POK)
@@ -380,6 +388,11 @@ def _call_expr(prog, call, callee_expr, outer, j):
         parts += ['**' + vk, '**' + vk]
     if prog['route'] == 'partial_inner':
         return 'functools.partial(%s)' % ', '.join([callee_expr] + parts)
+    if prog['route'] == 'via_helper' and not call.get('unres'):
+        return 'APPLY(%s)' % ', '.join([callee_expr] + parts)
+    if prog['route'] == 'via_helper_kw' and not call.get('unres'):
+        at = next((i for i, x in enumerate(parts) if x.startswith('**') or ('=' in x and not x.startswith('*'))), len(parts))
+        return 'APPLYK(%s)' % ', '.join(parts[:at] + ['fn=' + callee_expr] + parts[at:])
     return '%s(%s)' % (callee_expr, ', '.join(parts))
 
 
@@ -425,6 +438,11 @@ def _stmt(ctx, expr, j):
         return '%s = [%s for {A} in (HA,)][0]\n' % (r, expr)
     if ctx == 'comp_rebinds_kwargs':
         return '%s = [%s for {K} in (dict(HK),)][0]\n' % (r, expr)
+    # the first clause of a generator expression: its iterable belongs to the enclosing scope, its target does not
+    if ctx == 'genexp_rebinds_args':
+        return '%s = list(%s for {A} in (HA,))[0]\n' % (r, expr)
+    if ctx == 'genexp_rebinds_kwargs':
+        return '%s = list(%s for {K} in (dict(HK),))[0]\n' % (r, expr)
     if ctx == 'genexp_lazy':
         # a generator expression runs when it is consumed
         return '_gen%d = (%s for _i in (0,))\n%s = list(_gen%d)[0]\n' % (j, expr, r, j)
@@ -488,6 +506,8 @@ def render(prog):
            'def WRAPPING(f):\n    @functools.wraps(f)\n    def _wrapping(*args, **kwargs):\n        return f(*args, **kwargs)\n    return _wrapping',
            'def ALT(alt_only, /, *, alt_kw):\n    LOG.append({"__fn__": "ALT"})\n    return "ALT"',
            'def OTHER(o1, o2=2, *, o3=3):\n    return "OTHER"',
+           'def APPLY(fn, /, *a, **k):\n    return fn(*a, **k)',
+           'def APPLYK(*a, fn, **k):\n    return fn(*a, **k)',
            ]
     as_method = route in ('self_method', 'classmethod_cls', 'self_shadow_nested')
     leaf_srcs = [_leaf_src(i, l, prog['lkinds'][i], as_method=as_method,
@@ -505,6 +525,7 @@ def render(prog):
             'missing': 'MISSING%d' % i, 'noncallable': 'NONCALLABLE', 'classmethod_cls': 'cls.%s' % n,
             'closure_like_global': 'ALT' if i == 0 else '_c%d' % i,      # the closure variable is spelled like a module global
             'param_shadow_lambda': 'fn%d' % i, 'param_shadow_kwonly': 'fn%d' % i, 'self_shadow_nested': 'self.%s' % n, 'param_default': 'fn%d' % i,
+            'via_helper': n, 'via_helper_kw': n,
         }[route]
     has_po = any(p.kind == PO for p in outer)
     first_kind = PO if has_po else POK
@@ -572,7 +593,7 @@ def render(prog):
             else:
                 early, s = s.split(HOIST)
                 hoisted.append(early)
-        if c['ctx'] in ('comp_rebinds_args', 'comp_rebinds_kwargs', 'loop_rebinds_args', 'loop_rebinds_kwargs'):
+        if c['ctx'] in ('comp_rebinds_args', 'comp_rebinds_kwargs', 'genexp_rebinds_args', 'genexp_rebinds_kwargs', 'loop_rebinds_args', 'loop_rebinds_kwargs'):
             s = s.replace('{A}', va or 'args').replace('{K}', vk or 'kwargs')
         if route == 'shadow_nested':
             stmts.pop()
@@ -663,9 +684,9 @@ def taint_state(prog, upto=None):
     calls = prog['calls']
     last = len(calls) - 1 if upto is None else upto
     if upto is not None:
-        if calls[upto]['ctx'] == 'comp_rebinds_args':
+        if calls[upto]['ctx'] in ('comp_rebinds_args', 'genexp_rebinds_args'):
             apply('args', 'hidden')
-        elif calls[upto]['ctx'] == 'comp_rebinds_kwargs':
+        elif calls[upto]['ctx'] in ('comp_rebinds_kwargs', 'genexp_rebinds_kwargs'):
             apply('kwargs', 'hidden')
         elif calls[upto]['ctx'] == 'loop_rebinds_args':
             apply('args', 'both')
